@@ -645,7 +645,8 @@ impl Geonum {
         let angle_between = other.angle - self.angle;
         let distance_squared = self.mag * self.mag + other.mag * other.mag
             - 2.0 * self.mag * other.mag * angle_between.grade_angle().cos();
-        let distance = distance_squared.sqrt();
+        // nearly coincident points can round the radicand a few ulps below zero
+        let distance = distance_squared.max(0.0).sqrt();
 
         // return as scalar geonum (blade 0)
         Geonum::scalar(distance)
@@ -761,8 +762,10 @@ impl Add for Geonum {
 
         // compute result magnitude using cosine rule for rotation interference
         let angle_diff = angle2 - angle1;
+        // near-total cancellation can round the radicand a few ulps below zero
         let result_mag =
             (self.mag.powi(2) + other.mag.powi(2) + 2.0 * self.mag * other.mag * angle_diff.cos())
+                .max(0.0)
                 .sqrt();
 
         // combine transformation histories
